@@ -7,8 +7,8 @@ q_checks (shape of AGENT_GUIDE.md):
   c12_rejects      corrupt snapshots must be rejected with a library error.
   c12_directed     nested/mutable context, machine output, completion: isolation and faithfulness (code only).
 
-Known findings (currently F43) are matched with the classifiers of props.CLASSIFIERS (check.py does this only for stream
-oracles, so the q_checks do it for their own failures: a failure explained by an OPEN finding of C12 is counted,
+Open findings of C12 (none at present) are matched with the classifiers of props.CLASSIFIERS (check.py does this only for
+stream oracles, so the q_checks do it for their own failures: a failure explained by an OPEN finding of C12 is counted,
 not reported; everything else is a `fail`).
 """
 from __future__ import annotations
@@ -533,16 +533,6 @@ def _explained(prob, case, flavor, open_f):
     return None
 
 
-SHAPE_CLASSES = ("missing-key", "wrong-type", "history-unknown-state", "history-unknown-owner")
-
-
-def classify_shape_validation(prob, case, flavor):
-    """F43: from_snapshot validates nothing below the top-level type: a missing required key or a wrongly typed
-    value ends in a raw exception or is accepted; ids in `history` that name no state are dropped silently"""
-    return prob.get("kind") in ("corrupt-snapshot-raw-exception", "corrupt-snapshot-accepted") and \
-        prob.get("mutation_class") in SHAPE_CLASSES
-
-
 # ---------------------------------------------------------------------------------------------- c12_cut_points
 def c12_cut_points(tier, seed, n=40):
     scale = 8 if tier == "thorough" else 1
@@ -602,7 +592,10 @@ def c12_cut_points(tier, seed, n=40):
 
 # ---------------------------------------------------------------------------------------------- c12_rejects
 def _mutations(good, rng):
-    """(class, label, text) — every text except class 'valid' must be rejected with a library error"""
+    """(class, label, text). Classes: `valid` (must be accepted and restore the state of the original), `tolerated` (must
+    be accepted: input the code deliberately puts up with — unknown ids inside `history` are filtered, an actor record
+    whose service is gone is parked, a systemId of an actor that is not there is skipped, any string is a status); every
+    other class must be rejected with a library error"""
     cfgids = list(good.get("configuration") or [])
     some_id = cfgids[-1] if cfgids else "m"
     out = []
@@ -622,33 +615,70 @@ def _mutations(good, rng):
                 g[k] = v
         out.append((cls, label, json.dumps(g)))
 
+    rec = {"machine_id": "child", "src": None, "snapshot": {"status": "running", "context": {}, "state_ids": ["child.x"]}}
     mut("valid", "unchanged")
     out.append(("valid", "keys-reversed", json.dumps(dict(reversed(list(good.items()))))))
     mut("valid", "legacy-leaf-ids-only", configuration=_DEL)
     mut("valid", "no-optional-keys", output=_DEL, error=_DEL, history=_DEL, actors=_DEL, system=_DEL)
+    # `null` / empty for an optional key is the same as leaving it out
+    mut("valid", "optional-keys-null", output=None, error=None, history=None, actors=None, system=None)
+    mut("valid", "configuration=null (leaf ids used)", configuration=None)
+    mut("valid", "configuration=[] (leaf ids used)", configuration=[])
+    mut("valid", "state_ids=null (configuration used)", state_ids=None)
+    mut("valid", "no-state_ids (configuration used)", state_ids=_DEL)
+    same = "valid" if not good.get("history") else "tolerated"      # `valid` = the state of the original comes back
+    mut(same, "history={}", history={})
+    mut(same, "history with an empty list", history={some_id: []})
+    mut("tolerated", "history lists an unknown id", history={some_id: ["m.nope"]})
+    mut("tolerated", "history owner is no state", history={"m.nope": [some_id]})
+    mut("tolerated", "history: known and unknown ids", history={some_id: ["m.nope", some_id, ""]})
+    mut("tolerated", "status is some other string", status="no-such-status")
+    mut("tolerated", "status is the empty string", status="")
+    mut("tolerated", "actor record without a service", actors={"m:child": rec})
+    mut("tolerated", "actor record: only `snapshot`", actors={"a": {"snapshot": {}}})
+    mut("tolerated", "actor record: unread keys of any type", actors={"a": {"snapshot": {"status": 5}, "src": "gone", "machine_id": [5]}})
+    mut("tolerated", "systemId of an absent actor", system={"sys": "m:ghost"})
+    mut("tolerated", "actors and system together", actors={"m:child": rec}, system={"sys": "m:child"})
     mut("unknown-state", "extra-unknown-id", configuration=cfgids + ["m.nope"])
     mut("unknown-state", "misspelt-id", configuration=cfgids[:-1] + [some_id + "__no_such_state__"])
     mut("unknown-state", "other-machine-prefix", configuration=["zz" + some_id[1:]])
     mut("unknown-state", "legacy-unknown-leaf", configuration=_DEL, state_ids=["m.nope"])
+    mut("unknown-state", "empty-string-id", configuration=cfgids + [""])
+    mut("unknown-state", "unknown id, tolerated history / actors / system", configuration=["m.nope"],
+        history={"m.nope": ["m.nope"]}, actors={"a": {"snapshot": {}}}, system={"s": "a"})
     mut("missing-key", "no-status", status=_DEL)
     mut("missing-key", "no-context", context=_DEL)
     mut("missing-key", "no-configuration-no-state_ids", configuration=_DEL, state_ids=_DEL)
+    mut("missing-key", "configuration=[] no-state_ids", configuration=[], state_ids=_DEL)
+    mut("missing-key", "configuration=null state_ids=null", configuration=None, state_ids=None)
+    mut("missing-key", "no-status-no-context", status=_DEL, context=_DEL)
     for v in (None, 5, [1], {"a": 1}, True):
         mut("wrong-type", f"status={json.dumps(v)}", status=v)
-    for v in (None, 5, "zzz", [1], True):
+    for v in (None, 5, "zzz", [1], [], True):
         mut("wrong-type", f"context={json.dumps(v)}", context=v)
-    for v in (5, True, [5], [None], [[some_id]], {some_id: 5}):
+    for v in (5, 0, "", False, {}, True, [5], [None], [[some_id]], [some_id, 5], {some_id: 5}):
         mut("wrong-type", f"configuration={json.dumps(v)}", configuration=v)
-    for v in (5, [5], {some_id: 5}):
+    for v in (5, [5], {some_id: 5}, "", some_id):
         mut("wrong-type", f"state_ids={json.dumps(v)} (no configuration)", configuration=_DEL, state_ids=v)
-    for v in (5, "zzz", [1], True, {some_id: 5}, {some_id: [5]}, {some_id: some_id}):
+    for v in (5, {}, [some_id, None]):
+        mut("wrong-type", f"state_ids={json.dumps(v)} (configuration present)", state_ids=v)
+    for v in (5, 0, "", "zzz", [], [1], True, False, {some_id: 5}, {some_id: None}, {some_id: [5]}, {some_id: some_id},
+              {some_id: {}}, {some_id: [some_id], "m.nope": [[some_id]]}):
         mut("wrong-type", f"history={json.dumps(v)}", history=v)
-    for v in (5, [1], {"a": 1}, {"a": [1]}):
+    for v in (5, 0, "", [], [1], False, {"a": 1}, {"a": [1]}, {"a": None}, {"a": {}}, {"a": {"src": "k"}}, {"a": {"snapshot": None}},
+              {"a": {"snapshot": [1]}}, {"a": {"snapshot": "{}"}}, {"a": {"snapshot": {}, "src": 5}}, {"a": {"snapshot": {}, "src": ["k"]}},
+              {"a": {"snapshot": {}, "src": {}}}, {"m:child": rec, "b": 5}):
         mut("wrong-type", f"actors={json.dumps(v)}", actors=v)
-    for v in (5, [1], {"s": [1]}):
+    for v in (5, 0, "", [], [1], False, {"s": [1]}, {"s": 5}, {"s": None}, {"s": {}}, {"s": "a", "t": True}):
         mut("wrong-type", f"system={json.dumps(v)}", system=v)
-    mut("history-unknown-state", "history lists an unknown id", history={some_id: ["m.nope"]})
-    mut("history-unknown-owner", "history owner is no state", history={"m.nope": [some_id]})
+    # several things wrong at once: the shape is validated before any id is looked up, keys in a fixed order
+    mut("wrong-type", "unknown id and system=5", configuration=["m.nope"], system=5)
+    mut("wrong-type", "unknown id and actors=[1]", configuration=["m.nope"], actors=[1])
+    mut("wrong-type", "unknown id and history=5", configuration=["m.nope"], history=5)
+    mut("wrong-type", "unknown id and no status", configuration=["m.nope"], status=_DEL)
+    mut("wrong-type", "system=5 and actors=5 and history=5", system=5, actors=5, history=5)
+    mut("wrong-type", "system=5 and state_ids=5", system=5, state_ids=5)
+    mut("wrong-type", "context=5 and status=5", context=5, status=5)
     return out
 
 
@@ -694,6 +724,7 @@ async def _reject_run(eng, case, k, seed):
                 r["observe_error"] = type(e).__name__
         except XStateMachineError as x:
             r["outcome"] = "lib:" + type(x).__name__
+            r["message"] = str(x)[:200]
         except Exception as x:  # noqa: BLE001 — exactly what the monitor looks for
             r["outcome"] = "raw:" + type(x).__name__
             r["message"] = str(x)[:120]
@@ -706,7 +737,10 @@ def reject_problems(res):
     for r in res["results"]:
         cls, oc = r["class"], r["outcome"]
         base = {"mutation_class": cls, "mutation": r["label"], "snapshot": r["text"][:400]}
-        if cls == "valid":
+        if cls == "tolerated":
+            if oc != "accepted":
+                probs.append(dict(base, kind="tolerated-snapshot-rejected", detail=f"{r['label']}: {oc}: {r.get('message', '')}"[:400]))
+        elif cls == "valid":
             if oc != "accepted":
                 probs.append(dict(base, kind="valid-snapshot-rejected", detail=f"{r['label']}: {oc}"))
             elif r.get("obs") is not None and (sorted(r["obs"]["C"]) != sorted(res["ref"]["C"]) or r["obs"]["S"] != res["ref"]["S"] or r["obs"]["K"] != res["ref"]["K"]):
@@ -719,7 +753,8 @@ def reject_problems(res):
 
 
 def tie_rejects(items):
-    """model `restore` vs from_snapshot on the same texts, for the classes the model speaks about"""
+    """model `restore` vs from_snapshot on the same texts (every class; only the empty text and texts with a newline
+    cannot go through the line protocol of the driver)"""
     lines, spans = [], []
     for flavor, case, res in items:
         ls = ["M " + json.dumps(case["machine"]), f"F {flavor}"]
@@ -741,28 +776,28 @@ def tie_rejects(items):
         for r, i in idx:
             mo = json.loads(out[a + i])
             cls, oc = r["class"], r["outcome"]
-            mres = ("lib:" + mo["rerr"]) if "rerr" in mo and not mo["rerr"].startswith("SHAPE") else ("shape" if "rerr" in mo else "accepted")
+            mres = ("lib:" + mo["rerr"]) if "rerr" in mo else "accepted"
             n += 1
+            # EXACT: the same texts are accepted, the same are rejected, with the same error class; a shape error names
+            # the same key (the first offending one: model and code check the keys in the same order); an accepted
+            # snapshot restores the same state
             bad = None
-            if cls in ("not-json", "not-object", "unknown-state"):
-                if mres != oc:
-                    bad = "error kind"
-            elif cls == "valid" or cls.startswith("history-unknown"):
-                if (mres == "accepted") != (oc == "accepted"):
-                    bad = "acceptance"
-                elif mres == "accepted" and r.get("obs") is not None:
-                    a0 = {"C": sorted(r["obs"]["C"]), "S": r["obs"]["S"], "K": r["obs"]["K"],
-                          "H": {k: v for k, v in sorted(r["obs"]["H"].items()) if k in (mo.get("H") or {}) or cls == "valid"}}
-                    b0 = {"C": sorted(mo["C"]), "S": mo["S"], "K": mo.get("K") or {}, "H": dict(sorted((mo.get("H") or {}).items()))}
-                    if a0 != b0:
-                        bad = "restored state"
-            else:
-                # wrongly shaped input: the model refuses; the code must not be STRICTER in a way the model misses
-                if mres == "accepted" and oc.startswith("lib:"):
-                    bad = "model accepts what the code rejects"
+            if mres != oc:
+                bad = "acceptance" if "accepted" in (mres, oc) else "error kind"
+            elif "key" in mo and f"'{mo['key']}'" not in r.get("message", ""):
+                bad = "offending key"
+            elif mres == "accepted" and r.get("obs") is None:
+                bad = "restored state not observable"
+            elif mres == "accepted":
+                # an owner id that names no state stays in the code's history dict as a dead key; it has no path in the model
+                a0 = {"C": sorted(r["obs"]["C"]), "S": r["obs"]["S"], "K": r["obs"]["K"],
+                      "H": {k: v for k, v in sorted(r["obs"]["H"].items()) if k in (mo.get("H") or {}) or cls == "valid"}}
+                b0 = {"C": sorted(mo["C"]), "S": mo["S"], "K": mo.get("K") or {}, "H": dict(sorted((mo.get("H") or {}).items()))}
+                if a0 != b0:
+                    bad = "restored state"
             if bad:
                 ties.append({"what": "reject/" + bad, "flavor": flavor, "class": cls, "label": r["label"], "text": r["text"][:300],
-                             "impl": oc, "model": mo if "rerr" in mo else {"C": mo.get("C"), "S": mo.get("S"), "H": mo.get("H")}, "case": case})
+                             "impl": oc, "impl_message": r.get("message"), "model": mo if "rerr" in mo else {"C": mo.get("C"), "S": mo.get("S"), "H": mo.get("H")}, "case": case})
     return n, ties
 
 
@@ -802,9 +837,11 @@ def c12_rejects(tier, seed, n=10):
                                 "outcomes": [[r["class"], r["label"], r["outcome"]] for r in res["results"]][:60]})
         nn, tt = tie_rejects(items)
         ties.extend(tt)
-    what = (f"{evals} corrupted snapshots (not JSON, not an object, unknown state id, missing key, wrong type per key, unknown ids in history; "
-            f"plus valid controls) given to from_snapshot of both engines: outcome must be an XStateMachineError subclass (controls: accepted, same state); "
-            f"error kinds / acceptance compared with the model's `restore`. outcome histogram {hist}; {known} failures explained by open findings")
+    what = (f"{evals} corrupted snapshots (not JSON, not an object, unknown state id, missing key, wrong type / null / empty per key incl. actors "
+            f"and system, several defects at once; plus valid controls and tolerated input: unknown ids in history, parked actor records, any "
+            f"status string) given to from_snapshot of both engines: outcome must be an XStateMachineError subclass (controls and tolerated: accepted; "
+            f"controls: same state); compared EXACTLY with the model's `restore`: acceptance, error class, offending key of a shape error, restored "
+            f"state. outcome histogram {hist}; {known} failures explained by open findings")
     return {"evaluations": evals, "nontrivial": nontrivial, "ties": ties, "fails": fails, "samples": samples, "exhaustive": False, "what": what,
             "known_finding_failures": known}
 
